@@ -466,6 +466,16 @@ fn strings_block() -> (VioSink, u64) {
 				}
 			}
 		}
+		// long texts with a multi-byte character straddling every power-of-two byte offset from 16 to 16 384
+		// (messages, echoes and buffers cut at a fixed number of BYTES)
+		for ch in ["é", "€", "🙂"] {
+			for b in (4..=14).map(|k| 1usize << k) {
+				for back in 1..ch.len() {
+					v.push(format!("{}{ch}{}", "a".repeat(b - back), "b".repeat(40)));
+					v.push(format!("{}{}", "a".repeat((b - back) % ch.len()), ch.repeat(b / ch.len() + 20)));
+				}
+			}
+		}
 		v.sort();
 		v.dedup();
 		v
